@@ -15,6 +15,9 @@ TEXT = {
  "C04": ("period model [S(y), next E) over 400 consecutive years for IANA, idiom, random and purposely tied rules, through constructed zones, TZ descriptions and version-3 footers", "trusts M-rule (rule days by walking the month); degenerate rules (S=E every year) are left unspecified"),
  "C05": ("search results compared with the exact set {c-o : forward(c-o) has offset o}, with the model's and the implementation's own forward lookup; convert-back and localtime->search round trips; tie-constructing local times", "trusts M-find/M-zone; rules with overlapping DST periods (known finding F3) are excluded from random generation and replayed from explicit witnesses"),
  "C06": ("gap oracle defined from the clock at X-1 and X for table, junction and rule transitions; order, uniqueness of each gap, earliest/latest", "as C05; zones whose table transitions coincide in UTC through an inserted leap second (known finding F5) are excluded from random generation and replayed from explicit witnesses"),
+ "C08": ("differential decoding: an independent RFC 8536 writer and decoder (Must / MustFail / Unspec) against from_tz_data on generated v1/v2/v3 files, all 894 distinct vendored tzdata files and every single-field corruption of the named kinds", "trusts M-tzif (writer and decoder are checked against each other on every generated file; disagreement = inconclusive)"),
+ "C09": ("recursive-descent recogniser + denotation written from the grammar against three entry points (settings, v2 footer, v3 footer): grammar cross product, every single-character edit of sentences, thorough: all strings of length <= 6 over a 14-letter alphabet", "trusts M-posix; strings with >3-digit numbers, whitespace or non-ASCII next to a name are left unspecified"),
+ "C20": ("tzset(3) resolution model over a virtual file system with a recording reader: exact sequence of paths requested and result class, exhaustively over 44 value shapes x 9 directory lists x all file assignments", "trusts M-resolve; the real file system is not involved in this check"),
  "C11": ("brute-force 400-year definition against the constructor on all 1 324 801 day-notation pairs x breakpoints of d (thorough: all 105 breakpoints, each realised twice), error variant = first violated condition", "trusts M-rule day tables (closed form validated against walking the month over the cycle)"),
  "C12": ("probe zones pin the hidden UTC<->leap-count conversions: forward switch instant, instant reported by the search, their agreement, monotonicity; tables of both signs incl. the real 27-record one", "trusts M-leap (f defined as max{L: g(L)<=u}, brute-force validated)"),
  "C13": ("clause-by-clause validator against both constructors on valid zones, every single-defect perturbation at first/middle/last position, extremes and random malformed tuples", "trusts the A.3 validator; error variants compared on single-defect inputs only"),
